@@ -1,8 +1,14 @@
 use super::job_queue::*;
 use super::queue_state::*;
 
+#[cfg(not(desync_verif))]
 use std::sync::*;
+#[cfg(desync_verif)]
+use crate::verif::sync::*;
+#[cfg(not(desync_verif))]
 use std::thread::{Thread};
+#[cfg(desync_verif)]
+use crate::verif::thread::{Thread};
 use futures::task::{ArcWake};
 
 ///
